@@ -157,6 +157,32 @@ def run(case):
             comb = sum(wi * a for wi, a in zip(w, parts)) / w.sum()
             case.check(float(np.abs(avg - comb).max()) <= TOLERANCES["rel"] * amp,
                        "batch average != count-weighted mean of the per-tomogram averages", None)
+            # the same law with every loader option forwarded: rotated molecules in corner-safe, larger boxes
+            from acryo import BatchLoader, SubtomogramLoader, Molecules
+            from scipy.spatial.transform import Rotation as _R
+
+            Sb = int(rng.choice([13, 15, 16]))
+            cs = bool(rng.random() < 0.7)
+            bl = BatchLoader(order=int(rng.choice([0, 1, 3])), scale=float(rng.choice([1.0, 0.7])),
+                             output_shape=(Sb,) * 3, corner_safe=cs)
+            singles, ns = [], []
+            for j in range(2):
+                Tb = tuple(int(x) for x in rng.integers(Sb + 12, Sb + 18, size=3))
+                volb = rng.normal(size=Tb).astype(np.float32)
+                nb = int(rng.integers(1, 4))
+                posb = (np.asarray(Tb) / 2 + rng.uniform(-2, 2, size=(nb, 3))) * bl.scale
+                mb = Molecules(posb, _R.random(nb, random_state=int(rng.integers(0, 2**31))))
+                bl.add_tomogram(volb, mb)
+                singles.append(SubtomogramLoader(volb, mb, order=bl.order, scale=bl.scale, output_shape=(Sb,) * 3,
+                                                 corner_safe=cs))
+                ns.append(nb)
+            avg_b = np.asarray(bl.average())
+            comb_b = sum(n * np.asarray(sl.average()) for n, sl in zip(ns, singles)) / sum(ns)
+            comb_l = sum(n * np.asarray(ld.average()) for n, ld in zip(ns, bl.loaders)) / sum(ns)
+            eb = max(float(np.abs(avg_b - comb_b).max()), float(np.abs(avg_b - comb_l).max()))
+            case.maxobs("max_batch_rotated_err", eb)
+            case.check(eb <= 2e-4, "batch average (rotated molecules) != count-weighted mean of the averages of single "
+                       "loaders with the same options", None, err=eb, corner_safe=cs, box=Sb, order=bl.order)
         if p["kind"] == "group":
             grp = loader.groupby("g")
             ga = grp.average()
